@@ -1000,9 +1000,30 @@ FormatterToXML::flushChars()
 {
     assert(m_charBuf.empty() == false && m_charBuf.size() >= m_pos);
 
-    m_writer->write(&m_charBuf[0], 0, m_pos);
+    size_type   theCount = m_pos;
 
-    m_pos = 0;
+    // If the buffer is full, and the last code unit is the first
+    // half of a surrogate pair, keep it for the next time, so the
+    // pair is never split.  A transcoder cannot consume half of a
+    // surrogate pair.
+    if (theCount == s_maxBufferSize &&
+        isUTF16Surrogate(m_charBuf[theCount - 1]) == true)
+    {
+        --theCount;
+    }
+
+    m_writer->write(&m_charBuf[0], 0, theCount);
+
+    if (theCount == m_pos)
+    {
+        m_pos = 0;
+    }
+    else
+    {
+        m_charBuf[0] = m_charBuf[theCount];
+
+        m_pos = 1;
+    }
 }
 
 
